@@ -186,6 +186,18 @@ fn core_call(g: &mut AnyG, cmd: &str, rest: &[&str]) -> Option<String> {
     }
 }
 
+/// the complete internal state from the hook, in the model's format (blanks replaced by `_`)
+fn snapshot(g: &AnyG) -> String {
+    let s = with_g!(g, x => x.verif_snapshot());
+    let vs: Vec<String> = s.vertices.iter().map(|v| {
+        format!("{}:{}:{}:{}:{}:{}", v.id, v.branch, v.persistence, hexstr(&v.data), u8::from(v.heap),
+            v.edges.iter().map(|(a, t)| format!("{a}>{t}")).collect::<Vec<_>>().join(","))
+    }).collect();
+    let bs: Vec<String> = s.branches.iter().map(|(b, m)| format!("{b}={}", show_nats(m))).collect();
+    let ss: Vec<String> = s.stores.iter().map(|(b, n)| format!("{b}={n}")).collect();
+    format!("ok next={} v {} b {} s {}", s.next_v, vs.join("|"), bs.join(";"), ss.join(";")).replace(' ', "_")
+}
+
 fn observe(g: &AnyG) -> String {
     with_g!(g, x => {
         let parts: Vec<String> = x.keys().into_iter().map(|v| entry(g, v)).collect();
@@ -711,6 +723,14 @@ impl World {
                             None => "panic".into(),
                         }
                     }
+                }
+            }
+            ["snap", a] => {
+                let Some(a) = parse_handle(a) else { return "bad-op".into() };
+                match self.hs.get(&a) {
+                    None => "bad-op".into(),
+                    Some(HS::Dead) => "dead".into(),
+                    Some(HS::Live(g)) => guard(|| snapshot(g)).unwrap_or_else(|| "panic".into()),
                 }
             }
             ["observe", a] => {
